@@ -96,6 +96,49 @@ def short_targ(t):
     return t.rsplit("::", 1)[-1]
 
 
+def fmt_template_precisions(hexs):
+    """Literal precisions (`{:.3}`) of the placeholders of a compiled `format_args!` template (the byte string handed to
+    fmt::Arguments::new by this toolchain): 0 ends it, n < 0x80 is a literal piece of n bytes, 0xC0|opts is a placeholder whose
+    option bits say which fields follow - 0x01 flags (u32), 0x02 width (u16), 0x04 precision (u16), 0x08 argument index (u16);
+    0x10 / 0x20 mark width / precision as argument indices. Bit 28 of the flags word says "a precision is given": with no
+    precision field that is the literal 0. Unknown bytes end the decoding (nothing is claimed then)."""
+    try:
+        bs = bytes.fromhex(hexs)
+    except ValueError:
+        return []
+    out, i = [], 0
+    while i < len(bs):
+        x = bs[i]
+        i += 1
+        if x == 0:
+            break
+        if x < 0x80:
+            i += x
+            continue
+        if x < 0xC0:
+            return out
+        opts = x & 0x3F
+        flags = None
+        if opts & 0x01:
+            flags = int.from_bytes(bs[i:i + 4], "little")
+            i += 4
+        if opts & 0x02:
+            i += 2
+        prec = None
+        if opts & 0x04:
+            prec = int.from_bytes(bs[i:i + 2], "little")
+            i += 2
+        if opts & 0x08:
+            i += 2
+        if opts & 0x20:
+            continue                      # the precision is an argument (`{:.*}` / `{:.p$}`): reported through that argument
+        if prec is not None:
+            out.append(prec)
+        elif flags is not None and flags & 0x10000000:
+            out.append(0)
+    return out
+
+
 def arm_tokens(crate, b, reg, pos_l, len_l):
     toks = set()
     reads = set()
@@ -114,6 +157,9 @@ def arm_tokens(crate, b, reg, pos_l, len_l):
                         toks.add("x100")
                     if "ref_v" in o:
                         toks.add("prec:%d" % o["ref_v"])
+                    if o.get("ref_hex") and "[u8" in o.get("ty", ""):
+                        for pr in fmt_template_precisions(o["ref_hex"]):
+                            toks.add("prec:%d" % pr)
             if rv.get("place"):
                 reads.add(rv["place"]["l"])
             if rv["k"] == "agg" and rv["ak"] == "adt":
